@@ -99,6 +99,20 @@ def renameDuplicateAttrs (attrs : List Attr) : List Attr :=
   let keys := attrs.map Attr.key
   keys.eraseDups.foldl (fun cur k => processGroup cur (groupIdxs keys k)) attrs
 
+/-- `ValidateAttributesOverrides.validate_attrs`, the conflict branch for the child attr at position
+`ci` of the class: its counterpart is the first parent attr with the same slug; one of the two is
+renamed "by preference" and the new name is made unique among the attrs of the class *and* of all
+its parents (`chain(target.attrs, *base_attrs_map.values())`). Returns (class attrs, parent attrs). -/
+def resolveConflict (target base : List Attr) (ci : Nat) : List Attr × List Attr :=
+  match target[ci]? with
+  | some c =>
+    match base.findIdx? (fun b => b.slug == c.slug) with
+    | some bj =>
+      let out := renameByPreference (target ++ base) ci (target.length + bj)
+      (out.take target.length, out.drop target.length)
+    | none => (target, base)
+  | none => (target, base)
+
 /-- `build_qname(namespace, name)` for a non-empty name -/
 def buildQName (ns : Option Str) (name : Str) : Str :=
   match ns with
